@@ -1395,7 +1395,7 @@ func (vc *VC) chanInvRecv(ch ssa.Value, v string, et types.Type, st *State) {
 					}
 				}
 			}
-			if sends && !vc.w.claimed[funcKey(fn)] {
+			if sends && len(vc.w.claimed) > 0 && !vc.w.claimed[funcKey(fn)] { // (no claim: the dump command)
 				missing = append(missing, fn.RelString(fn.Pkg.Pkg))
 			}
 		}
